@@ -142,7 +142,7 @@ def word_neighbours(name, s, rng):
     alts = sorted(words, key=len, reverse=True)
     m = None
     for w in alts:
-        for mm in re.finditer(re.escape(w), s):
+        for mm in re.finditer(re.escape(w), s, flags=re.I):
             # a word, not a piece of a longer word
             if not (mm.start() > 0 and s[mm.start() - 1].isalpha() and w[0].isalpha()) and \
                     not (mm.end() < len(s) and s[mm.end()].isalpha()):
@@ -158,6 +158,18 @@ def word_neighbours(name, s, rng):
     cut = s[:m.start()].rstrip("-._~+^")
     if cut:
         out.append(cut)
+    return out
+
+
+def cut_tails(s):
+    """what is left when the text is cut at its last separator, and at the last separator before a letter
+    (1.1.0-beta1 / 1.1.0, 1.0_p1-r2 / 1.0_p1, 2.0.0+build / 2.0.0)"""
+    import re
+    out = []
+    for m in list(re.finditer(r"[-+~_^]", s))[-2:]:
+        t = s[:m.start()]
+        if t and t not in out and t != s:
+            out.append(t)
     return out
 
 
@@ -179,7 +191,7 @@ def build_pool(name, rng, size=40, respell=0.3, need_hash=True):
                 p.insert(s3, S.make(name, s3))
             except Exception:  # noqa: BLE001
                 pass
-        if rng.random() < 0.25:
+        if rng.random() < 0.5:
             # the same text with the case of one letter changed (another version where case matters, another
             # spelling where it does not: either way nothing may confuse the two by folding case)
             idx = [i for i, ch in enumerate(s) if ch.isalpha() and ch.isascii()]
@@ -190,22 +202,32 @@ def build_pool(name, rng, size=40, respell=0.3, need_hash=True):
                     p.insert(s4, S.make(name, s4))
                 except Exception:  # noqa: BLE001
                     pass
-        if rng.random() < 0.3:
-            # a near-equal neighbour: another spelling of the same version with one numeric field moved by a little
-            # (where the operators of a scheme contradict each other, it is between versions like these)
+        if rng.random() < 0.5:
+            # near-equal neighbours: another spelling of the same version with one numeric field moved by a little, and
+            # with its LAST number moved by two or three (where the operators of a scheme contradict each other, it is
+            # between versions like these: a three-way result read as -1/0/1 by one operator and by sign by another)
+            import re
             try:
                 from harness.scheme_corr import bump_number
-                s5 = bump_number(S.RESPELL[name](s, rng), rng)
-                if s5 != s:
-                    p.insert(s5, S.make(name, s5))
+                t = S.RESPELL[name](s, rng)
+                cands = [bump_number(t, rng)]
+                runs = [m.span() for m in re.finditer(r"[0-9]+", t)]
+                if runs and runs[-1][1] - runs[-1][0] < 10:
+                    i, j = runs[-1]
+                    cands.append(t[:i] + str(int(t[i:j]) + rng.choice([2, 3])) + t[j:])
+                for s5 in cands:
+                    if s5 != s:
+                        try:
+                            p.insert(s5, S.make(name, s5))
+                        except Exception:  # noqa: BLE001
+                            pass
             except Exception:  # noqa: BLE001
                 pass
-        if rng.random() < 0.5:
-            for s6 in word_neighbours(name, s, rng):
-                try:
-                    p.insert(s6, S.make(name, s6))
-                except Exception:  # noqa: BLE001
-                    pass
+        for s6 in word_neighbours(name, s, rng) + (cut_tails(s) if rng.random() < 0.4 else []):
+            try:
+                p.insert(s6, S.make(name, s6))
+            except Exception:  # noqa: BLE001
+                pass
         if rng.random() < respell:
             # other spellings of the SAME version (up to two), found among a few respellings; a respelling that
             # turns out to be another version is inserted as such
